@@ -471,3 +471,50 @@ pub fn c08(sink: &mut Sink, rng: &mut Rng, thorough: bool) { passes(sink, rng, t
 pub fn c09(sink: &mut Sink, rng: &mut Rng, thorough: bool) { passes(sink, rng, thorough, c09_pass) }
 pub fn c10(sink: &mut Sink, rng: &mut Rng, thorough: bool) { passes(sink, rng, thorough, c10_pass) }
 pub fn c11(sink: &mut Sink, rng: &mut Rng, thorough: bool) { passes(sink, rng, thorough, c11_pass) }
+
+/// C12 (space-time text readers): single-field mutations of valid ST ASCII documents, read by the real
+/// `moc2d_from_ascii_ivoa` and by the model's ST reader (same verdict, depths and elements).
+pub fn c12_st(sink: &mut Sink, rng: &mut Rng, thorough: bool) {
+  use moc::deser::ascii::moc2d_from_ascii_ivoa;
+  use moc::moc2d::{CellOrCellRangeMOC2IntoIterator, CellOrCellRangeMOC2Iterator, RangeMOC2IntoIterator, RangeMOC2Iterator};
+  set_pass(2, 0);
+  let n = if thorough { 3000 } else { 300 };
+  for _ in 0..n {
+    let m = random_st(rng);
+    let moc2 = to_moc2(&m);
+    let mut t = Vec::new();
+    if (&moc2).into_range_moc2_iter().into_cellcellrange_moc2_iter().to_ascii_ivoa(None, false, &mut t).is_err() { continue; }
+    let text = String::from_utf8(t).unwrap();
+    for _ in 0..4 {
+      let mut doc = text.clone();
+      let choice = rng.below(9);
+      match choice {
+        0 => {} // unmutated
+        1 => { let cut = rng.below(doc.len() as u64 + 1) as usize; doc.truncate(cut); }
+        2 | 3 => {
+          if !doc.is_empty() {
+            let pos = rng.below(doc.len() as u64) as usize;
+            let c = *rng.pick(&[b't', b's', b'/', b'-', b' ', b'9', b'0', b'x', b'\n']);
+            let mut b = doc.into_bytes(); b[pos] = c; doc = String::from_utf8_lossy(&b).to_string();
+          }
+        }
+        4 => doc = format!("t62/1 s0/1 {}", doc),          // time depth above the maximum
+        5 => doc = format!("t2/8 s0/1 {}", doc),           // time index outside the depth-2 domain (8 cells)
+        6 => doc = format!("t2/1 s0/12 {}", doc),          // space index outside the domain
+        7 => doc = format!("t2/1-3 2 s0/1 {}", doc),       // overlapping time cells inside one element
+        _ => doc = doc.replacen('s', " ", 1),             // an element without its space part
+      }
+      if !doc.is_ascii() { continue; }
+      let a = guarded(AssertUnwindSafe(|| match moc2d_from_ascii_ivoa::<u64, Time<u64>, u64, Hpx<u64>>(&doc) {
+        Ok(c) => {
+          let r = c.into_cellcellrange_moc2_iter().into_range_moc2_iter().into_range_moc2();
+          format!("{} {} {}", r.depth_max_1(), r.depth_max_2(), st_txt(&from_moc2(r)))
+        }
+        Err(_) => "err".to_string(),
+      }));
+      sink.count(&format!("st-mut:{}:{}", choice, if a == "err" { "err" } else if a.starts_with("panic") { "panic" } else { "ok" }));
+      let hx: String = doc.as_bytes().iter().map(|b| format!("{:02x}", b)).collect();
+      sink.emit(&format!("st_ascii_dec 64 {}", if hx.is_empty() { "_".to_string() } else { hx }), &a, true);
+    }
+  }
+}
